@@ -497,6 +497,17 @@ Definition link_1to1 (a b : node) : res unit :=
     end
   else ROk tt.
 
+(* the check is made for every (sender, receiver) pair of the new edges: senders = the output nodes of the left operand
+   (a node, a Model that may never have run, or every node of a list), receivers = the input nodes of the right operand;
+   the operands' own is_initialized flag plays no role *)
+Fixpoint link_check (senders receivers : list node) : res unit :=
+  match senders with
+  | [] => ROk tt
+  | s :: ss =>
+      if forallb (fun r => match link_1to1 s r with ROk _ => true | RErr _ => false end) receivers
+      then link_check ss receivers else RErr ValueError
+  end.
+
 (* ---------------------------------------------------------------------------------- history (pre-fix behaviour) *)
 (* Before 164b89d, Delay.initialize filled the deque with the 1-D rows of np.zeros((delay, dim)), which forward pops
    during the first [delay] steps; before 9c754c0 a single-target scikit-learn estimator's 1-D prediction became the state. *)
